@@ -49,6 +49,18 @@ fn fmt_f64(x: f64, tr: u8, plus: bool, p: Option<usize>) -> String {
 }
 
 pub fn judge_text(w: [f64; 2]) -> Verdict {
+    judge_text_with(w, &PRECS)
+}
+
+/// precisions far beyond the 17 significant digits of an f64 (long outputs: a fixed-size buffer or a digit-count
+/// assumption in the formatting code shows only here), used on a subset of the values
+const BIG_PRECS: [Option<usize>; 6] = [Some(100), Some(217), Some(325), Some(512), Some(800), Some(1100)];
+
+pub fn judge_text_big(w: [f64; 2]) -> Verdict {
+    judge_text_with(w, &BIG_PRECS)
+}
+
+fn judge_text_with(w: [f64; 2], precs: &[Option<usize>]) -> Verdict {
     let args = [w[0].to_bits(), w[1].to_bits()];
     if !dd_valid_fast(w[0], w[1]) {
         return Verdict::Skip;
@@ -57,7 +69,7 @@ pub fn judge_text(w: [f64; 2]) -> Verdict {
     let names = ["Display", "LowerExp", "UpperExp"];
     for tr in 0..3u8 {
         for plus in [false, true] {
-            for p in PRECS {
+            for &p in precs {
                 let got = match api(|| fmt_tf(&x, tr, plus, p)) {
                     Ok(s) => s,
                     Err(m) => return Verdict::fail("no_panic", names[tr as usize], &args, format!("panic: {}", m), "a string".into(), "panic"),
@@ -319,7 +331,16 @@ pub fn replay(call: &str, _clause: &str, args: &[u64]) -> Verdict {
     match call {
         "deserialize" => judge_script(&script_from_args(args)),
         "serialize" => judge_ser([f64::from_bits(args[0]), f64::from_bits(args[1])]),
-        _ => judge_text([f64::from_bits(args[0]), f64::from_bits(args[1])]),
+        _ => {
+            // a text transition: the ordinary precisions first, then the long ones (a recorded violation may come from either phase)
+            let w = [f64::from_bits(args[0]), f64::from_bits(args[1])];
+            let v = judge_text(w);
+            if v.is_fail() {
+                v
+            } else {
+                judge_text_big(w)
+            }
+        }
     }
 }
 
@@ -354,6 +375,19 @@ pub fn run(r: &mut Runner) {
             rec.record(l, i as u64, v);
         }
     });
+    {
+        let mut big: Vec<[f64; 2]> = vec![[f64::MAX, 2f64.powi(969)], [-f64::MAX, -2f64.powi(969)], [1.2345e300, 6.789e283], [1e250, 1e233], [1e200, -1e183], [1.5, 1e-17], [3e-300, 1e-320], [5e-324, 0.0], [1.0, 0.0], [-123456.789, 1e-12], [2f64.powi(52) + 1.0, 0.5], [1e22, -1e5], [0.0, 0.0], [-0.0, 0.0]];
+        big.extend(vals.iter().step_by(97).cloned());
+        big.retain(|w| dd_valid_fast(w[0], w[1]));
+        let nb = big.len();
+        r.notes.push(format!("long outputs: {} values (largest and smallest magnitudes, every 97th value of the main set) x 3 format traits x {{plain,+}} x precisions 100, 217, 325, 512, 800, 1100", nb));
+        r.par("text: precisions 100..1100", nb.div_ceil(16), nb as u64, |c, l| {
+            for i in (c * 16)..((c + 1) * 16).min(nb) {
+                l.transitions += 35;
+                rec.record(l, (1u64 << 39) + i as u64, judge_text_big(big[i]));
+            }
+        });
+    }
     r.par("serialize + feed back (seq, map, reversed map)", n.div_ceil(256), n as u64, |c, l| {
         for i in (c * 256)..((c + 1) * 256).min(n) {
             let v = judge_ser(vals[i]);
